@@ -414,7 +414,7 @@ def handleMcj (ws : List String) : Option String := do
     let out := sortStrs <| vs.map fun v =>
       let w := conjBack3 ts ⟨v.getD 0 0, v.getD 1 0, v.getD 2 0⟩
       show3 [w.x, w.y, w.z]
-    some s!"n={out.length} side=1 near=1 {";".intercalate out}"
+    some s!"n={out.length} side=1 near=1 orient=1 {";".intercalate out}"
 
 open M3d.Tf M3d.MarchingGlue in
 /-- `msj iters delta lo(2) hi(2) n <transforms> <csg>`: `MarchingSquaresConj`. -/
@@ -438,7 +438,7 @@ def handleMsj (ws : List String) : Option String := do
     let out := sortStrs <| vs.map fun v =>
       let w := conjBack2 ts ⟨v.getD 0 0, v.getD 1 0⟩
       show3 [w.x, w.y]
-    some s!"n={out.length} side=1 near=1 {";".intercalate out}"
+    some s!"n={out.length} side=1 near=1 orient=1 {";".intercalate out}"
 
 open M3d.MarchingGlue in
 /-- `c2f2 iters minx miny maxx maxy small big extra NX NY bits <csg>`: `MarchingSquaresC2F`.  The driver
